@@ -70,6 +70,7 @@ class Contract:
         self.initializes = {}     # constructors: field -> expression over the parameters (post-state)
         self.fuel = 1
         self.timeout = None
+        self.pure = False         # deterministic function of its (value) arguments: usable in specs as f(args)
 
     @property
     def key(self):
@@ -78,7 +79,7 @@ class Contract:
 
 _SPEC_CALLS = {"requires", "ensures", "raises", "raises_only", "modifies", "terminates", "loop", "ghost", "local",
                "mode", "returns", "decreases", "cover", "yields", "note", "case_split", "fuel", "timeout", "domain",
-               "logical", "initializes", "result_alias", "position_independent", "reveal"}
+               "logical", "initializes", "result_alias", "position_independent", "reveal", "pure"}
 
 
 def _const(node):
@@ -110,6 +111,8 @@ def _parse_body(c, body):
                 c.modifies += call.args
             elif f == "terminates":
                 c.terminates = True
+            elif f == "pure":
+                c.pure = True
             elif f == "loop":
                 ls = LoopSpec()
                 n = _const(call.args[0])
@@ -232,6 +235,7 @@ class ContractDB:
                     self.lemmas[c.name] = c
                 else:
                     self.by_target.setdefault(c.target, []).append(c)
+        self.pure = {c.target.split(":")[1]: c for c in self.all if c.kind != "lemma" and c.pure}
 
     def get(self, target, mode=None):
         cs = self.by_target.get(target, [])
